@@ -226,6 +226,17 @@ func runC01(c *Ctx) {
 								filled = true
 							}
 						}
+						if !filled {
+							// the fill loop written out in place
+							for _, l := range leavesOfIface(s.High) {
+								if buf, ok := accumulatedRead(l); ok && sameValue(buf, s.X) {
+									filled = true
+								}
+							}
+							if buf, ok := accumulatedRead(s.High); ok && sameValue(buf, s.X) {
+								filled = true
+							}
+						}
 						c.check(filled, "R1", site+" (ii) Data is what was just read", pos(a), "Data = buf[:n] with n from the fill of buf (io.ReadFull or the package's readFull)", "Data is not the prefix filled by this iteration's read of the source")
 					}
 				}
@@ -321,6 +332,10 @@ func runC01(c *Ctx) {
 						}
 					}
 					if lv, ok := lenV.(*ssa.Convert); ok {
+						// n accumulated by a fill loop over b = make([]byte, maxPacket): never more than len(b)
+						if buf, ok := accumulatedRead(lv.X); ok && madeWith(buf, "maxPacket") {
+							bounded = true
+						}
 						if ext, ok := lv.X.(*ssa.Extract); ok {
 							// n from io.ReadFull(r, b) with b = make([]byte, maxPacket)
 							if call, ok := ext.Tuple.(*ssa.Call); ok && isFillCall(&call.Call) {
@@ -1080,6 +1095,51 @@ func checkSourceErrorsReturned(c *Ctx, rule string) {
 // isFillCall: io.ReadFull(r, buf), or the module's own fill helper with the same contract (0 <= n <= len(buf), buf[:n]
 // filled).  The helper is accepted only if its body is the canonical loop: it calls Read on buf[n:] where n is the
 // count it accumulates from Read's results and returns that n.
+// accumulatedRead: n counts what a fill loop written in place has read into buf — a phi that starts at a constant
+// and grows by the count of each r.Read(buf[n:]) (the body of io.ReadFull / the package's readFull, inlined).  Returns
+// the buffer that is filled.
+func accumulatedRead(n ssa.Value) (buf ssa.Value, ok bool) {
+	seen := map[ssa.Value]bool{}
+	var find func(v ssa.Value, d int) (ssa.Value, bool)
+	find = func(v ssa.Value, d int) (ssa.Value, bool) {
+		if d > 4 || seen[v] {
+			return nil, false
+		}
+		seen[v] = true
+		ph, isPhi := v.(*ssa.Phi)
+		if !isPhi {
+			return nil, false
+		}
+		for _, e := range ph.Edges {
+			if b, ok := e.(*ssa.BinOp); ok && b.Op == token.ADD {
+				for _, pair := range [][2]ssa.Value{{b.X, b.Y}, {b.Y, b.X}} {
+					acc, inc := pair[0], pair[1]
+					accPhi, isP := acc.(*ssa.Phi)
+					if !isP {
+						continue
+					}
+					ex, isEx := inc.(*ssa.Extract)
+					if !isEx || ex.Index != 0 {
+						continue
+					}
+					call, isCall := ex.Tuple.(*ssa.Call)
+					if !isCall || !call.Call.IsInvoke() || call.Call.Method.Name() != "Read" || len(call.Call.Args) != 1 {
+						continue
+					}
+					if sl, ok := call.Call.Args[0].(*ssa.Slice); ok && sl.High == nil && sl.Low == ssa.Value(accPhi) {
+						return sl.X, true
+					}
+				}
+			}
+			if b, ok := find(e, d+1); ok {
+				return b, true
+			}
+		}
+		return nil, false
+	}
+	return find(n, 0)
+}
+
 func isFillCall(cc *ssa.CallCommon) bool {
 	if callIs(cc, "io.ReadFull") {
 		return true
